@@ -83,6 +83,42 @@ func ifCond(iff *ssa.If, succ0 bool) (ssa.Value, bool) {
 	return normCond(iff.Cond, succ0)
 }
 
+// impliedConds: what the truth value pos of cond implies, cond itself first. A boolean local built with a short
+// -circuit operator (`ready := a || b`) is a φ of constants and one computed operand: the φ being false (for ||;
+// true for &&) means the computed operand was evaluated and has that value.
+func impliedConds(cond ssa.Value, pos bool, depth int) []condAt {
+	out := []condAt{{cond, pos}}
+	if depth <= 0 {
+		return out
+	}
+	switch x := cond.(type) {
+	case *ssa.UnOp:
+		if x.Op == token.NOT {
+			out = append(out, impliedConds(x.X, !pos, depth-1)...)
+		}
+	case *ssa.Phi:
+		var computed []ssa.Value
+		for _, e := range x.Edges {
+			if b, isC := constBool(e); isC {
+				if b == pos {
+					return out // the constant edge explains the value: nothing follows
+				}
+				continue
+			}
+			computed = append(computed, e)
+		}
+		if len(computed) == 1 {
+			out = append(out, impliedConds(computed[0], pos, depth-1)...)
+		}
+	}
+	return out
+}
+
+type condAt struct {
+	v   ssa.Value
+	pos bool
+}
+
 // ---------- ok(call): success edge of the error test of a matching call ----------
 
 type okEv struct {
